@@ -18,7 +18,7 @@ def run(ctx: Ctx) -> Result:
     res = Result(rule=RULE)
     rng = ctx.sub_rng('c13')
     B = Bench(ctx, res); T = B.T
-    flagsets = ['00', '01', '02', '03', '7f', '80', 'ff']
+    flagsets = ['00', '01', '02', '03', '7f', '80', 'ff', '04', '08', '10', '20', '40', 'df', 'ef', 'bf', '30']      # incl. every single bit and its complement neighbours
     for it in range(ctx.n(60, 700)):
         seeds = [V.rbytes(rng, 32) for _ in range(4)]; pks = [bytes(SigningKey(s).verify_key) for s in seeds]
         sf = {f'sigfield{i}': V.rbytes(rng, rng.choice([1, 6, 33])) for i in range(1, 9) if rng.random() < .6}
@@ -115,6 +115,18 @@ def run(ctx: Ctx) -> Result:
             solo2 = T.Script.from_src(f'push x{s_a.hex()} push x{s_c.hex()}')
             ok, v = B.auth([solo2.bytes, locks['multisig'].bytes], sf)
             if ok: B.viol('multisig 2-of-3 met by flag variants of ONE listed key', {**inp, 'scripts': [solo2.bytes.hex(), locks['multisig'].bytes.hex()], 'cache': vmrun.cache_str(sf, False)}, False, v)
+        # a key list that names one holder twice (the builder allows it while the quorum fits the unique keys): still only listed keys count
+        dup_lock = try_build(T.make_multisig_lock, [pks[0], pks[1], pks[0]], 2, lf)
+        B.build(f'BUILD2 multisig_lock 2 {int(lf, 16)} {pks[0].hex()} {pks[1].hex()} {pks[0].hex()}', hexof(dup_lock))
+        if not isinstance(dup_lock, str):
+            w01 = T.make_single_sig_witness(seeds[0], sf, wf) + T.make_single_sig_witness(seeds[1], sf, wf)
+            ok, v = B.auth([w01.bytes, dup_lock.bytes], sf)
+            if not ok: B.viol('multisig 2-of-[A,B,A]: signatures of A and B rejected', {**inp, 'scripts': [w01.bytes.hex(), dup_lock.bytes.hex()], 'cache': vmrun.cache_str(sf, False)}, True, v)
+            for what, w in (('B plus an outsider who also pushes his own public key', T.make_single_sig_witness(seeds[1], sf, wf) + T.make_single_sig_witness(seeds[3], sf, wf) + T.Script.from_src('push x' + pks[3].hex())),
+                            ('an outsider alone who pushes his own public key', T.make_single_sig_witness(seeds[3], sf, wf) + T.make_single_sig_witness(seeds[3], sf, wf) + T.Script.from_src('push x' + pks[3].hex())),
+                            ('A alone, twice', T.make_single_sig_witness(seeds[0], sf, wf) + T.make_single_sig_witness(seeds[0], sf, wf))):
+                ok, v = B.auth([w.bytes, dup_lock.bytes], sf)
+                if ok: B.viol(f'multisig 2-of-[A,B,A] met by {what}', {**inp, 'scripts': [w.bytes.hex(), dup_lock.bytes.hex()], 'cache': vmrun.cache_str(sf, False)}, False, v)
         outsider = T.make_single_sig_witness(seeds[0], sf, wf) + T.make_single_sig_witness(seeds[3], sf, wf)
         ok, v = B.auth([outsider.bytes, locks['multisig'].bytes], sf)
         if ok: B.viol('multisig 2-of-3 met by one holder plus an outsider', {**inp, 'scripts': [outsider.bytes.hex(), locks['multisig'].bytes.hex()], 'cache': vmrun.cache_str(sf, False)}, False, v)
